@@ -24,6 +24,17 @@ def check(tier, seed, only=None, variants=("mh_sha1", "mh_sha256"), pid="C05"):
                 rep.transferred.append({"function": j.name, "proved_instance": j.name.rsplit("/", 2)[0] + "/avx2/...",
                                         "why": "same template file instantiated by #include with a different block function name"})
         jobs = [j for j in jobs if any(k in j.name for k in keep)]
+    # compression functions of the C side against FIPS 180-4 (per-round cut points, vf/compress.py):
+    # the outer hashes used by finalize; thorough adds the C block functions for some segment columns
+    from . import compress
+    try:
+        ckeys = ["sha1_for_mh"] + (["sha256_for_mh"] if pid == "C05" else [])
+        jobs += compress.jobs(os.path.join(runner.scratch(), "compress"), ckeys)
+        if tier != "quick" and pid == "C05":
+            jobs += compress.jobs(os.path.join(runner.scratch(), "compress"), ["mh_sha1_block"], segs=(0, 15))
+            jobs += compress.jobs(os.path.join(runner.scratch(), "compress"), ["mh_sha256_block"], segs=(7,))
+    except overlay.OverlayError as e:
+        raise evidence.Undecided("extraction broke: %s" % e)
     if only:
         jobs = [j for j in jobs if any(s in j.name for s in only.split(","))]
 
@@ -36,16 +47,18 @@ def check(tier, seed, only=None, variants=("mh_sha1", "mh_sha256"), pid="C05"):
         # bounded stand-in for what the tape proofs assume about the block functions and the outer hash
         from . import native
         try:
-            d = native.mh_diff(os.path.join(runner.scratch(), "native_mh"), 300 if tier == "quick" else 5000, seed)
-            rep.bounded.append({"what": "_mh_shaN_block_base == multi-hash definition (reference from FIPS 180-4); NASM block functions == block_base; "
-                                        "outer hash == standard hash; init/update/finalize with random segmentation == definition",
-                                "label": "bounded", "bound": "%d random iterations, 1..4 blocks, offsets 0..63, streams < 8 KiB" % (300 if tier == "quick" else 5000),
-                                "evaluations": d["calls"], "distinct_nontrivial": d["cases"], "agree": d["ok"], "cmd": d["cmd"]})
-            if not d["ok"]:
-                path = os.path.join(rep.replay_dir(), "mh_diff.txt")
-                with open(path, "w") as f:
-                    f.write("native/mh_diff.c on the real code from /repo\n$ " + d["cmd"] + "\n" + d["text"])
-                rep.add_violation("native/mh_diff:block:contract", "assumed contract violated on the real code: " + d["text"].split("\n")[0][:200], path, True)
+            for opt in ("-O1", "-O2"):
+                d = native.mh_diff(os.path.join(runner.scratch(), "native_mh" + opt), 300 if tier == "quick" else 5000, seed, opt=opt)
+                rep.bounded.append({"what": "_mh_shaN_block_base == multi-hash definition (reference from FIPS 180-4); NASM block functions == block_base; "
+                                            "outer hash == standard hash; init/update/finalize with random segmentation == definition; library C files compiled " + opt
+                                            + (" (guards the assumption that gcc compiles the type-punned stores the way CBMC reads them)" if opt == "-O2" else ""),
+                                    "label": "bounded", "bound": "%d random iterations, 1..4 blocks, offsets 0..63, streams < 8 KiB" % (300 if tier == "quick" else 5000),
+                                    "evaluations": d["calls"], "distinct_nontrivial": d["cases"], "agree": d["ok"], "cmd": d["cmd"]})
+                if not d["ok"]:
+                    path = os.path.join(rep.replay_dir(), "mh_diff%s.txt" % opt)
+                    with open(path, "w") as f:
+                        f.write("native/mh_diff.c on the real code from /repo\n$ " + d["cmd"] + "\n" + d["text"])
+                    rep.add_violation("native/mh_diff%s:block:contract" % opt, "assumed contract violated on the real code (%s): " % opt + d["text"].split("\n")[0][:200], path, True)
         except Exception as e:
             rep.add_undecided("native mh check could not be built/run: %s" % e)
     else:
@@ -54,7 +67,12 @@ def check(tier, seed, only=None, variants=("mh_sha1", "mh_sha256"), pid="C05"):
                                "body per block with the loop count bounded by 3 - the loop body is the same code for every block -, tail for every length with a "
                                "substituting cut-point after the byte packing; unsigned 32-bit length)")
     rep.assumptions.append("ASSUMED: block functions _mh_shaN_block_{base,sse,avx,avx2,avx512} hash n*1024 bytes as 16 interleaved standard compressions (round-robin dealing of 32-bit words); only the tape (which bytes, in which order, with which padding) is proved here")
-    rep.assumptions.append("ASSUMED: _sha1_for_mh_sha1 / sha256_for_mh_sha256 are the standard hash of the 320/512-byte segment-digest matrix")
+    rep.notes.append("outer hash: the block functions _sha1_single_for_mh_sha1 / sha256_single_for_mh_sha256 are PROVED equal to the FIPS 180-4 compression "
+                     "functions (jobs compress/*_for_mh); the byte loop around them (sha1_for_mh_sha1 / sha256_for_mh_sha256: padding of the 320/512-byte "
+                     "segment-digest matrix) is covered by the bounded native check only")
+    rep.notes.append("C block functions mh_sha1_single / mh_sha256_single: thorough tier proves segment columns 0 and 15 (mh_sha1, per-lane macro text) and 7 "
+                     "(mh_sha256, lanes are a loop) equal to the FIPS compression of the de-interleaved segment block; about 2 CPU hours per segment, so the "
+                     "other columns rest on the bounded native check")
     rep.assumptions.append("domain: total stream length < 2^32 bytes (the property's domain; beyond it `len + partial_block_len` wraps in 32 bits)")
     rep.assumptions.append("libc memcpy/memset with run-time length: witness contracts over the whole context object (contracts/mh_prelude.h)")
     return rep.finish(
